@@ -370,11 +370,31 @@ def correspondence(ctx, broken_obligations=()):
         "fixed: property=C13 e20acc7 lost child under the forced look-up/look-up/insert/insert schedule (sched:rvA, sched:rvB cases)",
         "fixed: property=C13 3e4a84d order-dependent item name (re-cased parent references, shuffled orders)",
         "fixed: property=C13 8bd8521 build_tree skipped every file on POSIX paths (mode seq)"]
+    # the tree build overlapping a notification that holds a document's write lock: the builder waits, it does not skip the file
+    hb_hooks = diff.Engines.harness(hooks=True)
+    outs = core.run_lines(hb_hooks, "sched", ["tree_vs_change;x"] * (3 if ctx.quick else 20), shards=3)
+    for o in outs:
+        if o != "tree=aBase hook=true":
+            bad = ("the class tree built while a change notification held aDoc's write lock lost or mangled aDoc's parent link: "
+                   "supertypes(aDoc) observed as %r, expected aBase" % o)
+            path = core.write_replay(ctx.pid, ctx.seed, {"engine": "E-sched", "case": "tree_vs_change;x", "observed": o, "expected": bad})
+            v = core.Violation(bad, path, True)
+            v.coverage = cov
+            raise v
+    cov["tree_build_vs_change_schedules"] = len(outs)
     return cov
 
 
 def replay(ctx, rep):
     case = rep["case"]
+    if rep.get("engine") == "E-sched":
+        o = core.run_lines(diff.Engines.harness(hooks=True), "sched", [case], shards=1)[0]
+        print("forced schedule:", case, "->", o)
+        if o != "tree=aBase hook=true":
+            print("VIOLATION property=C13 replay=%s" % rep.get("how_to_rerun", "?").split()[-1])
+            return 1
+        print("property holds on this schedule")
+        return 0
     hooks = case.startswith("sched")
     hb = diff.Engines.harness(hooks=hooks)
     r, out = None, None
